@@ -2,19 +2,28 @@
 
     The SITES come from the translator (Gen/Tables.v [dropped_error_sites], Gen/C18.v [extra_sites],
     [regexp_helper_calls]) and the load-time VALIDATORS from Gen/C18.v [validators]; both are regenerated from the Go
-    AST on every run.  This file only holds the hand-reviewed table saying, for each site, why it cannot crash —
-    or that it can (known finding).  A site that appears in the source without a row here, or a [ValidatedSame] row
-    whose validator call disappeared from the source, breaks the finite theorems of Proofs/C18_sites.v. *)
-From Coq Require Import List String Bool.
+    AST on every run, as are the `X != ""` conditions around every site ([site_guards]) and the block schema of the
+    configuration ([config_blocks], [validate_calls]).  This file only holds the hand-reviewed table saying, for each
+    site, why it cannot crash.  There is NO "known crash" class any more: every crash row found while this check was
+    built was repaired in /repo (457aa6b, 4986535, 4008951, 0b2762d, 72c92b8), so a site is either backed by a load-time
+    validator (checked mechanically, including the emptiness guards on both sides) or belongs to a reviewed harmless
+    class.  A site that appears in the source without a row here, a validated row whose validator call disappeared, or
+    a use that is no longer under the guard its validator is under, breaks the finite theorems of Proofs/C18_sites.v. *)
+From Coq Require Import List String Ascii Bool.
 From PintV Require Import Common.Bytes Gen.Tables Gen.C18.
 Import ListNotations.
 Open Scope string_scope.
 Open Scope list_scope.
 
 Inductive disposition :=
-| ValidatedSame (vfunc vcallee varg : string) (use_guarded : bool)
+| ValidatedSame (vfunc vcallee varg : string)
     (* load rejects the config unless [vcallee varg] succeeds inside [vfunc]; the use site calls the same function
-       (or its Must wrapper) on the same field; [use_guarded]: the use is under the same `!= ""` guard as the validator *)
+       (or its Must wrapper) on the same field.  CHECKED against the generated tables: the validator call exists and
+       is either unconditional or under `F != ""` while EVERY occurrence of the use site is under `F != ""` for the
+       same field F (so "validated only when non-empty, used also when empty" — the shape of 0b2762d — is rejected) *)
+| ValidatedDefaulted (vfunc vcallee varg why : string)
+    (* validated under `F != ""`; the use is unguarded but an empty F was replaced by a constant default before
+       (review judgement [why]); the validator call is CHECKED to exist *)
 | ValidatedWrapped (vfunc vcallee varg how : string)
     (* validated on the bare pattern, compiled later inside anchors ^p$ — no failing input known for this wrapper *)
 | ZeroValue (why : string)          (* not (fully) validated, but the dropped error only yields a zero value *)
@@ -22,8 +31,7 @@ Inductive disposition :=
 | Constant (why : string)
 | Harmless (why : string)
 | HelperDef (why : string)          (* body of a Must/regexp helper: judged at its call sites *)
-| CliFlag (why : string)            (* value comes from the command line, not from the configuration *)
-| CrashKnown (finding : string).    (* accepted config / rule file can crash here: open known finding *)
+| CliFlag (why : string).           (* value comes from the command line, not from the configuration *)
 
 Record key := K { k_file : string; k_func : string; k_callee : string; k_args : string }.
 
@@ -37,44 +45,44 @@ Definition key_eqb (a b : key) : bool :=
 Definition key_of (s : dropped_site) : key := K (ds_file s) (ds_func s) (ds_callee s) (ds_args s).
 
 Definition reviewed : list (key * disposition) := [
-  (K "internal/config/aggregate.go" "getSeverity" "checks.ParseSeverity" "ag.Severity", ValidatedSame "AggregateSettings.validate" "checks.ParseSeverity" "ag.Severity" true);
-  (K "internal/config/alerts.go" "getSeverity" "checks.ParseSeverity" "as.Severity", ValidatedSame "AlertsSettings.validate" "checks.ParseSeverity" "as.Severity" true);
-  (K "internal/config/annotation.go" "getSeverity" "checks.ParseSeverity" "as.Severity", ValidatedSame "AnnotationSettings.validate" "checks.ParseSeverity" "as.Severity" true);
+  (K "internal/config/aggregate.go" "getSeverity" "checks.ParseSeverity" "ag.Severity", ValidatedSame "AggregateSettings.validate" "checks.ParseSeverity" "ag.Severity");
+  (K "internal/config/alerts.go" "getSeverity" "checks.ParseSeverity" "as.Severity", ValidatedSame "AlertsSettings.validate" "checks.ParseSeverity" "as.Severity");
+  (K "internal/config/annotation.go" "getSeverity" "checks.ParseSeverity" "as.Severity", ValidatedSame "AnnotationSettings.validate" "checks.ParseSeverity" "as.Severity");
   (K "internal/config/config.go" "String" "json.MarshalIndent" "*", Harmless "debug rendering of the config; a marshal error yields an empty string");
-  (K "internal/config/cost.go" "getSeverity" "checks.ParseSeverity" "cs.Severity", ValidatedSame "CostSettings.validate" "checks.ParseSeverity" "cs.Severity" true);
-  (K "internal/config/discovery.go" "Discover" "parseDuration" "pq.Timeout", ValidatedSame "PrometheusQuery.validate" "parseDuration" "pq.Timeout" true);
+  (K "internal/config/cost.go" "getSeverity" "checks.ParseSeverity" "cs.Severity", ValidatedSame "CostSettings.validate" "checks.ParseSeverity" "cs.Severity");
+  (K "internal/config/discovery.go" "Discover" "parseDuration" "pq.Timeout", ValidatedDefaulted "PrometheusQuery.validate" "parseDuration" "pq.Timeout" "Discover sets an empty timeout to 2m first");
   (K "internal/config/discovery.go" "Discover" "pq.TLS.toHTTPConfig" "", ZeroValue "TLS.validate checks the files exist; a later read error yields a nil *tls.Config = default transport");
-  (K "internal/config/for.go" "getSeverity" "checks.ParseSeverity" "fs.Severity", ValidatedSame "ForSettings.validate" "checks.ParseSeverity" "fs.Severity" true);
-  (K "internal/config/for.go" "resolve" "parseDuration" "fs.Min", ValidatedSame "ForSettings.validate" "parseDuration" "fs.Min" true);
-  (K "internal/config/for.go" "resolve" "parseDuration" "fs.Max", ValidatedSame "ForSettings.validate" "parseDuration" "fs.Max" true);
-  (K "internal/config/match.go" "IsMatch" "parseDurationMatch" "m.For", ValidatedSame "Match.validate" "parseDurationMatch" "m.For" true);
+  (K "internal/config/for.go" "getSeverity" "checks.ParseSeverity" "fs.Severity", ValidatedSame "ForSettings.validate" "checks.ParseSeverity" "fs.Severity");
+  (K "internal/config/for.go" "resolve" "parseDuration" "fs.Min", ValidatedSame "ForSettings.validate" "parseDuration" "fs.Min");
+  (K "internal/config/for.go" "resolve" "parseDuration" "fs.Max", ValidatedSame "ForSettings.validate" "parseDuration" "fs.Max");
+  (K "internal/config/match.go" "IsMatch" "parseDurationMatch" "m.For", ValidatedSame "Match.validate" "parseDurationMatch" "m.For");
   (K "internal/config/match.go" "IsMatch" "parseDurationMatch" "m.KeepFiringFor", ZeroValue "keep_firing_for of match/ignore is NOT validated at load; the dropped error leaves op = and duration 0 (C09 spec doc_duration), no dereference");
   (K "internal/config/match.go" "matchRegex" "regexp.MustCompile" "*", HelperDef "argument = anchored form of the parameter; judged at the matchRegex call sites");
   (K "internal/config/owners.go" "CompileAllowed" "MustCompileRegexes" "o.Allowed", ValidatedWrapped "Owners.validate" "regexp.Compile" "o.Allowed[]" "^p$");
-  (K "internal/config/parsed_rule.go" "parseRule" "checks.MustTemplatedRegexp" "aggr.Name", ValidatedSame "AggregateSettings.validate" "checks.NewTemplatedRegexp" "ag.Name" true);
+  (K "internal/config/parsed_rule.go" "parseRule" "checks.MustTemplatedRegexp" "aggr.Name", ValidatedSame "AggregateSettings.validate" "checks.NewTemplatedRegexp" "ag.Name");
   (K "internal/config/parsed_rule.go" "parseRule" "parseDuration" "rule.Cost.MaxEvaluationDuration", ZeroValue "validated only when non-empty, used unguarded: an empty value parses to the zero duration (error dropped), no dereference");
-  (K "internal/config/parsed_rule.go" "parseRule" "checks.MustRawTemplatedRegexp" "ann.Token", ValidatedSame "AnnotationSettings.validate" "checks.NewRawTemplatedRegexp" "as.Token" true);
-  (K "internal/config/parsed_rule.go" "parseRule" "checks.MustTemplatedRegexp" "ann.Value", ValidatedSame "AnnotationSettings.validate" "checks.NewTemplatedRegexp" "as.Value" true);
-  (K "internal/config/parsed_rule.go" "parseRule" "checks.MustTemplatedRegexp" "ann.Key", ValidatedSame "AnnotationSettings.validate" "checks.NewTemplatedRegexp" "as.Key" false);
-  (K "internal/config/parsed_rule.go" "parseRule" "checks.MustRawTemplatedRegexp" "lab.Token", ValidatedSame "AnnotationSettings.validate" "checks.NewRawTemplatedRegexp" "as.Token" true);
-  (K "internal/config/parsed_rule.go" "parseRule" "checks.MustTemplatedRegexp" "lab.Value", ValidatedSame "AnnotationSettings.validate" "checks.NewTemplatedRegexp" "as.Value" true);
-  (K "internal/config/parsed_rule.go" "parseRule" "checks.MustTemplatedRegexp" "lab.Key", ValidatedSame "AnnotationSettings.validate" "checks.NewTemplatedRegexp" "as.Key" false);
-  (K "internal/config/parsed_rule.go" "parseRule" "parseDuration" "rule.Alerts.Range", ValidatedSame "AlertsSettings.validate" "parseDuration" "as.Range" true);
-  (K "internal/config/parsed_rule.go" "parseRule" "parseDuration" "rule.Alerts.Step", ValidatedSame "AlertsSettings.validate" "parseDuration" "as.Step" true);
-  (K "internal/config/parsed_rule.go" "parseRule" "parseDuration" "rule.Alerts.Resolve", ValidatedSame "AlertsSettings.validate" "parseDuration" "as.Resolve" true);
-  (K "internal/config/parsed_rule.go" "parseRule" "checks.MustTemplatedRegexp" "reject.Regex", ValidatedSame "RejectSettings.validate" "checks.NewTemplatedRegexp" "rs.Regex" false);
-  (K "internal/config/parsed_rule.go" "parseRule" "checks.MustTemplatedRegexp" "link.Regex", ValidatedSame "RuleLinkSettings.validate" "checks.NewTemplatedRegexp" "s.Regex" false);
-  (K "internal/config/parsed_rule.go" "parseRule" "parseDuration" "link.Timeout", ValidatedSame "RuleLinkSettings.validate" "parseDuration" "s.Timeout" true);
-  (K "internal/config/parsed_rule.go" "parseRule" "checks.MustTemplatedRegexp" "name.Regex", ValidatedSame "RuleNameSettings.validate" "checks.NewTemplatedRegexp" "rs.Regex" false);
-  (K "internal/config/parsed_rule.go" "parseRule" "parseDuration" "rule.RangeQuery.Max", ValidatedSame "RangeQuerySettings.validate" "parseDuration" "s.Max" false);
-  (K "internal/config/prometheus.go" "newFailoverGroup" "parseDuration" "prom.Timeout", ValidatedSame "PrometheusConfig.validate" "parseDuration" "pc.Timeout" true);
-  (K "internal/config/prometheus.go" "newFailoverGroup" "prom.TLS.toHTTPConfig" "", ValidatedSame "Load" "prom.TLS.toHTTPConfig" "" false);
-  (K "internal/config/range_query.go" "getSeverity" "checks.ParseSeverity" "s.Severity", ValidatedSame "RangeQuerySettings.validate" "checks.ParseSeverity" "s.Severity" true);
-  (K "internal/config/reject.go" "getSeverity" "checks.ParseSeverity" "rs.Severity", ValidatedSame "RejectSettings.validate" "checks.ParseSeverity" "rs.Severity" true);
+  (K "internal/config/parsed_rule.go" "parseRule" "checks.MustRawTemplatedRegexp" "ann.Token", ValidatedSame "AnnotationSettings.validate" "checks.NewRawTemplatedRegexp" "as.Token");
+  (K "internal/config/parsed_rule.go" "parseRule" "checks.MustTemplatedRegexp" "ann.Value", ValidatedSame "AnnotationSettings.validate" "checks.NewTemplatedRegexp" "as.Value");
+  (K "internal/config/parsed_rule.go" "parseRule" "checks.MustTemplatedRegexp" "ann.Key", ValidatedSame "AnnotationSettings.validate" "checks.NewTemplatedRegexp" "as.Key");
+  (K "internal/config/parsed_rule.go" "parseRule" "checks.MustRawTemplatedRegexp" "lab.Token", ValidatedSame "AnnotationSettings.validate" "checks.NewRawTemplatedRegexp" "as.Token");
+  (K "internal/config/parsed_rule.go" "parseRule" "checks.MustTemplatedRegexp" "lab.Value", ValidatedSame "AnnotationSettings.validate" "checks.NewTemplatedRegexp" "as.Value");
+  (K "internal/config/parsed_rule.go" "parseRule" "checks.MustTemplatedRegexp" "lab.Key", ValidatedSame "AnnotationSettings.validate" "checks.NewTemplatedRegexp" "as.Key");
+  (K "internal/config/parsed_rule.go" "parseRule" "parseDuration" "rule.Alerts.Range", ValidatedSame "AlertsSettings.validate" "parseDuration" "as.Range");
+  (K "internal/config/parsed_rule.go" "parseRule" "parseDuration" "rule.Alerts.Step", ValidatedSame "AlertsSettings.validate" "parseDuration" "as.Step");
+  (K "internal/config/parsed_rule.go" "parseRule" "parseDuration" "rule.Alerts.Resolve", ValidatedSame "AlertsSettings.validate" "parseDuration" "as.Resolve");
+  (K "internal/config/parsed_rule.go" "parseRule" "checks.MustTemplatedRegexp" "reject.Regex", ValidatedSame "RejectSettings.validate" "checks.NewTemplatedRegexp" "rs.Regex");
+  (K "internal/config/parsed_rule.go" "parseRule" "checks.MustTemplatedRegexp" "link.Regex", ValidatedSame "RuleLinkSettings.validate" "checks.NewTemplatedRegexp" "s.Regex");
+  (K "internal/config/parsed_rule.go" "parseRule" "parseDuration" "link.Timeout", ValidatedSame "RuleLinkSettings.validate" "parseDuration" "s.Timeout");
+  (K "internal/config/parsed_rule.go" "parseRule" "checks.MustTemplatedRegexp" "name.Regex", ValidatedSame "RuleNameSettings.validate" "checks.NewTemplatedRegexp" "rs.Regex");
+  (K "internal/config/parsed_rule.go" "parseRule" "parseDuration" "rule.RangeQuery.Max", ValidatedSame "RangeQuerySettings.validate" "parseDuration" "s.Max");
+  (K "internal/config/prometheus.go" "newFailoverGroup" "parseDuration" "prom.Timeout", ValidatedDefaulted "PrometheusConfig.validate" "parseDuration" "pc.Timeout" "Load calls applyDefaults, which sets an empty timeout to 2m, before any group is built");
+  (K "internal/config/prometheus.go" "newFailoverGroup" "prom.TLS.toHTTPConfig" "", ValidatedSame "Load" "prom.TLS.toHTTPConfig" "");
+  (K "internal/config/range_query.go" "getSeverity" "checks.ParseSeverity" "s.Severity", ValidatedSame "RangeQuerySettings.validate" "checks.ParseSeverity" "s.Severity");
+  (K "internal/config/reject.go" "getSeverity" "checks.ParseSeverity" "rs.Severity", ValidatedSame "RejectSettings.validate" "checks.ParseSeverity" "rs.Severity");
   (K "internal/config/report.go" "getSeverity" "checks.ParseSeverity" "rs.Severity", ZeroValue "validated only when non-empty but parsed unguarded: severity = """" yields Fatal (error dropped), no dereference");
   (K "internal/config/rule.go" "strictRegex" "regexp.MustCompile" "*", HelperDef "argument = parameter; see the strictRegex / MustCompileRegexes rows");
-  (K "internal/config/rule_link.go" "getSeverity" "checks.ParseSeverity" "s.Severity", ValidatedSame "RuleLinkSettings.validate" "checks.ParseSeverity" "s.Severity" true);
-  (K "internal/config/rule_name.go" "getSeverity" "checks.ParseSeverity" "rs.Severity", ValidatedSame "RuleNameSettings.validate" "checks.ParseSeverity" "rs.Severity" true);
+  (K "internal/config/rule_link.go" "getSeverity" "checks.ParseSeverity" "s.Severity", ValidatedSame "RuleLinkSettings.validate" "checks.ParseSeverity" "s.Severity");
+  (K "internal/config/rule_name.go" "getSeverity" "checks.ParseSeverity" "rs.Severity", ValidatedSame "RuleNameSettings.validate" "checks.ParseSeverity" "rs.Severity");
   (K "internal/checks/alerts_annotation.go" "Check" "c.keyRe.MustExpand" "*", RuleData "total MustExpand (C18_must_expand_total)");
   (K "internal/checks/alerts_annotation.go" "Check" "c.tokenRe.MustExpand" "*", RuleData "total MustExpand (C18_must_expand_total)");
   (K "internal/checks/alerts_annotation.go" "checkValue" "c.valueRe.MustExpand" "*", RuleData "total MustExpand (C18_must_expand_total)");
@@ -83,7 +91,7 @@ Definition reviewed : list (key * disposition) := [
   (K "internal/checks/promql_regexp.go" "Check" "syntax.Parse" "*", RuleData "regexp of a PromQL matcher the PromQL parser already compiled");
   (K "internal/checks/promql_regexp.go" "findMatcherPos" "regexp.MustCompile" "*", RuleData "label name and value go through regexp.QuoteMeta (fix 4008951); a recurrence crashes the quoted-label-name stratum of the binary runs");
   (K "internal/checks/promql_series.go" "Check" "labels.MustNewMatcher" "*", Constant "constant pattern .+");
-  (K "internal/checks/promql_series.go" "checkOtherServer" "promParser.ParseMetricSelector" "selector", ValidatedSame "PromqlSeriesSettings.Validate" "promParser.ParseMetricSelector" "c.IgnoreMatchingElsewhere[]" false);
+  (K "internal/checks/promql_series.go" "checkOtherServer" "promParser.ParseMetricSelector" "selector", ValidatedSame "PromqlSeriesSettings.Validate" "promParser.ParseMetricSelector" "c.IgnoreMatchingElsewhere[]");
   (K "internal/checks/promql_series.go" "getMinAge" "matchSelectorToMetric" "*", RuleData "selector from a rule/set comment; error = no match");
   (K "internal/checks/promql_series.go" "isLabelValueIgnored" "matchSelectorToMetric" "*", RuleData "selector from a rule/set comment or settings; error = no match");
   (K "internal/checks/promql_series.go" "orphanedRuleSetComments" "matchSelectorToMetric" "*", RuleData "selector from a rule/set comment; error = no match");
@@ -108,7 +116,7 @@ Definition reviewed : list (key * disposition) := [
   (K "cmd/pint/lint.go" "actionLint" "config.MustCompileRegexes" "meta.cfg.Parser.Include", ValidatedWrapped "Parser.validate" "regexp.Compile" "p.Include[]" "^p$ (the config file path is appended to Exclude unvalidated: CLI)");
   (K "cmd/pint/lint.go" "actionLint" "config.MustCompileRegexes" "meta.cfg.Parser.Exclude", ValidatedWrapped "Parser.validate" "regexp.Compile" "p.Exclude[]" "^p$ (the config file path is appended to Exclude unvalidated: CLI)");
   (K "cmd/pint/lint.go" "actionLint" "config.MustCompileRegexes" "meta.cfg.Parser.Relaxed", ValidatedWrapped "Parser.validate" "regexp.Compile" "p.Relaxed[]" "^p$ (the config file path is appended to Exclude unvalidated: CLI)");
-  (K "cmd/pint/scan.go" "checkRules" "s.Decode" "", ValidatedSame "Check.validate" "c.Decode" "" false);
+  (K "cmd/pint/scan.go" "checkRules" "s.Decode" "", ValidatedSame "Check.validate" "c.Decode" "");
   (K "cmd/pint/watch.go" "actionWatch" "metricsRegistry.MustRegister" "*", Constant "metric descriptors are program constants");
   (K "cmd/pint/watch.go" "actionWatch" "io.WriteString" "*", Harmless "health endpoint write");
   (K "cmd/pint/watch.go" "scan" "config.MustCompileRegexes" "c.cfg.Parser.Include", ValidatedWrapped "Parser.validate" "regexp.Compile" "p.Include[]" "^p$ (the config file path is appended to Exclude unvalidated: CLI)");
@@ -118,12 +126,12 @@ Definition reviewed : list (key * disposition) := [
   (K "cmd/pint/watch.go" "metricFromProblem" "prometheus.MustNewConstMetric" "*", Constant "metric descriptors are program constants");
   (K "internal/config/discovery.go" "isIgnored" "strictRegex" "fp.Ignore[]", ValidatedWrapped "FilePath.validate" "regexp.Compile" "fp.Ignore[]" "^p$");
   (K "internal/config/discovery.go" "Discover" "strictRegex" "fp.Match", ValidatedWrapped "FilePath.validate" "regexp.Compile" "fp.Match" "^p$");
-  (K "internal/config/match.go" "IsMatch" "matchRegex" "m.Path", ValidatedSame "Match.validate" "validateMatchRegex" "m.Path" false);
-  (K "internal/config/match.go" "IsMatch" "matchRegex" "m.Name", ValidatedSame "Match.validate" "validateMatchRegex" "m.Name" false);
-  (K "internal/config/match.go" "isMatching" "matchRegex" "ml.Key", ValidatedSame "MatchLabel.validate" "validateMatchRegex" "ml.Key" false);
-  (K "internal/config/match.go" "isMatching" "matchRegex" "ml.Value", ValidatedSame "MatchLabel.validate" "validateMatchRegex" "ml.Value" false);
-  (K "internal/config/match.go" "isMatching" "matchRegex" "ma.Key", ValidatedSame "MatchAnnotation.validate" "validateMatchRegex" "ma.Key" false);
-  (K "internal/config/match.go" "isMatching" "matchRegex" "ma.Value", ValidatedSame "MatchAnnotation.validate" "validateMatchRegex" "ma.Value" false);
+  (K "internal/config/match.go" "IsMatch" "matchRegex" "m.Path", ValidatedSame "Match.validate" "validateMatchRegex" "m.Path");
+  (K "internal/config/match.go" "IsMatch" "matchRegex" "m.Name", ValidatedSame "Match.validate" "validateMatchRegex" "m.Name");
+  (K "internal/config/match.go" "isMatching" "matchRegex" "ml.Key", ValidatedSame "MatchLabel.validate" "validateMatchRegex" "ml.Key");
+  (K "internal/config/match.go" "isMatching" "matchRegex" "ml.Value", ValidatedSame "MatchLabel.validate" "validateMatchRegex" "ml.Value");
+  (K "internal/config/match.go" "isMatching" "matchRegex" "ma.Key", ValidatedSame "MatchAnnotation.validate" "validateMatchRegex" "ma.Key");
+  (K "internal/config/match.go" "isMatching" "matchRegex" "ma.Value", ValidatedSame "MatchAnnotation.validate" "validateMatchRegex" "ma.Value");
   (K "internal/config/prometheus.go" "newFailoverGroup" "strictRegex" "prom.Include[]", ValidatedWrapped "PrometheusConfig.validate" "regexp.Compile" "pc.Include[]" "^p$");
   (K "internal/config/prometheus.go" "newFailoverGroup" "strictRegex" "prom.Exclude[]", ValidatedWrapped "PrometheusConfig.validate" "regexp.Compile" "pc.Exclude[]" "^p$")
 ].
@@ -151,6 +159,29 @@ Definition callee_compatible (site_callee validator_callee : string) : bool :=
   String.eqb site_callee validator_callee ||
   existsb (fun p => String.eqb (fst p) site_callee && String.eqb (snd p) validator_callee) (must_pairs ++ method_aliases ++ helper_validators).
 
+(** text after the first "." of a guard: [as.Token != ""] and [ann.Token != ""] guard the same field *)
+Fixpoint after_dot (s : string) : string :=
+  match s with
+  | EmptyString => EmptyString
+  | String c r => if Ascii.eqb c "."%char then r else after_dot r
+  end.
+
+(** the `X != ""` guards around every occurrence of a site in the current source ("" = unguarded) *)
+Definition guards_of (s : dropped_site) : list string :=
+  map sg_guard (filter (fun g => String.eqb (sg_file g) (ds_file s) && String.eqb (sg_func g) (ds_func s) &&
+                                 String.eqb (sg_callee g) (ds_callee s) && String.eqb (sg_args g) (ds_args s)) site_guards).
+
+(** every occurrence of the site is under a non-empty-string guard on field [f] *)
+Definition used_only_when_nonempty (s : dropped_site) (f : string) : bool :=
+  negb (match guards_of s with [] => true | _ => false end) &&
+  forallb (fun g => negb (String.eqb g "") && String.eqb (after_dot g) f) (guards_of s).
+
+(** some validator call [vcallee varg] inside [vfunc] that covers the use: unconditional, or conditional on the same
+    field being non-empty as every occurrence of the use *)
+Definition validator_covers (s : dropped_site) (vfunc vcallee varg : string) : bool :=
+  existsb (fun v => String.eqb (v_func v) vfunc && String.eqb (v_callee v) vcallee && String.eqb (v_arg v) varg &&
+                    (String.eqb (v_guard v) "" || used_only_when_nonempty s (after_dot (v_guard v)))) validators.
+
 Definition has_validator (vfunc vcallee varg : string) (need_unguarded : bool) : bool :=
   existsb (fun v => String.eqb (v_func v) vfunc && String.eqb (v_callee v) vcallee && String.eqb (v_arg v) varg &&
                     (negb need_unguarded || String.eqb (v_guard v) "")) validators.
@@ -159,17 +190,11 @@ Definition has_validator (vfunc vcallee varg : string) (need_unguarded : bool) :
 Definition site_ok (s : dropped_site) : bool :=
   match disposition_of s with
   | None => false
-  | Some (ValidatedSame vf vc va use_guarded) =>
-      callee_compatible (ds_callee s) vc && has_validator vf vc va (negb use_guarded)
+  | Some (ValidatedSame vf vc va) => callee_compatible (ds_callee s) vc && validator_covers s vf vc va
+  | Some (ValidatedDefaulted vf vc va _) => callee_compatible (ds_callee s) vc && has_validator vf vc va false
   | Some (ValidatedWrapped vf vc va _) => has_validator vf vc va true
   | Some _ => true
   end.
-
-Definition is_crash (s : dropped_site) : bool :=
-  match disposition_of s with Some (CrashKnown _) => true | _ => false end.
-
-Definition crash_findings : list string :=
-  flat_map (fun s => match disposition_of s with Some (CrashKnown f) => [f] | _ => [] end) all_sites.
 
 (** no stale rows: every reviewed key still names a site of the current source *)
 Definition row_is_live (kd : key * disposition) : bool :=
@@ -186,3 +211,28 @@ Definition helper_validator_backed (p : string * string) : bool :=
   existsb (fun s => String.eqb (ds_func s) (fst p) && String.eqb (ds_callee s) "regexp.MustCompile" &&
                     existsb (fun v => String.eqb (v_func v) (snd p) && String.eqb (v_callee v) "regexp.Compile" &&
                                       String.eqb (v_arg v) (ds_args s)) validators) dropped_error_sites.
+
+(** * The block schema: load-time validation reaches every block of the configuration
+
+    [config_blocks] = every `hcl:"<name>,block"` field of a struct of internal/config; [validate_calls] = every
+    `<owner>.<Field>.validate()` call (range variables resolved) inside a validate method or Load, with whether its
+    error is returned; [validate_methods] = the struct types that have a validate method. *)
+Definition validate_func_of (owner : string) : string :=
+  if String.eqb owner "Config" then "Load" else (owner ++ ".validate")%string.
+
+Definition block_validated (b : config_block) : bool :=
+  mem_str (cb_type b) validate_methods &&
+  existsb (fun c => String.eqb (vc_owner c) (cb_struct b) && String.eqb (vc_field c) (cb_field b) &&
+                    String.eqb (vc_func c) (validate_func_of (cb_struct b)) && vc_error_returned c) validate_calls.
+
+(** a block type is reachable from the root [Config] through validated block fields (fuel = number of blocks) *)
+Fixpoint reachable_types (fuel : nat) (acc : list string) : list string :=
+  match fuel with
+  | O => acc
+  | S f =>
+      reachable_types f
+        (fold_left (fun a b => if mem_str (cb_struct b) a && negb (mem_str (cb_type b) a) then cb_type b :: a else a) config_blocks acc)
+  end.
+
+Definition block_reachable (b : config_block) : bool :=
+  mem_str (cb_struct b) (reachable_types (List.length config_blocks) ["Config"]).
